@@ -18,6 +18,9 @@ CHECKS = {
  "C08": dict(level="model_checking", technique="bounded-exhaustive differential exploration: every vocabulary atom in every operand position x styled documents, full node-graph dump before/after on the real evaluator",
    text="Every atom of the assignment-free vocabulary is placed alone, in every operand position of the listed unary forms and on both sides of every binary operator, wrapped as `(e) as $x | .` and `.. | select(e)`, and run by the real evaluator on every styled and commented document of the bound; the complete canonical dump of the input's node graph (all fields, pointer structure) must be identical before and after, the yielded nodes must be the original ones and the document must print as before. No reference model is involved, so there is no model/code gap.",
    note="Trusted: the graph dump covers every exported field of CandidateNode; operators that are in-place by design or read the environment are excluded as the statement excludes them.", design="4/C08"),
+ "C13": dict(level="model_checking", technique="bounded-exhaustive enumeration of alias/merge-key document layouts with generator ground truth; three read routes on the real code vs the YAML merge-key rules",
+   text="A generator that carries its own ground truth enumerates every placement of explicit keys before/after `<<`, `<<` as a single alias or every ordered list of 1..3 aliases with overlapping keys (one anchored map itself merges another), explicit values that are plain, aliases or merging maps, and aliases to scalar/sequence/map in value position; every document is read through traversal of the un-exploded document, through explode(.) (which must leave no alias, merge key or anchor and change nothing else) and through the JSON encoder, and each key is compared with the merge-key rules.",
+   note="Trusted: the 40-line resolver of the merge-key rules in c13.go. Two deviations are documented yq behaviour pinned by its tests and are listed as known findings by route and culprit; the check still reports any other disagreement.", design="4/C13"),
  "C15": dict(level="model_checking", technique="bounded-exhaustive enumeration of pairs, triples and sequences over a scalar alphabet on the real sort/compare handlers; order laws checked on every case",
    text="All ordered pairs and triples of a 29-scalar alphabet chosen per branch of the two comparators (null spellings, booleans, 64-bit extremes one apart, hex/octal, floats equal to integers, inf/nan, digit strings, non-ASCII) are pushed through the real sort_by, sort, < <= > >=, min, max: antisymmetry, transitivity, agreement with the stated order and of all operators with each other; every sequence up to the length bound is checked for permutation, order, idempotence and stability; all 65 536 two-key patterns of length 16 decide stability beyond Go's insertion-sort threshold; sort_keys on all key permutations.",
    note="Trusted: nothing beyond the law definitions; number-vs-string and true-vs-false direction are left open by the statement and any consistent choice is accepted.", design="4/C15"),
